@@ -262,7 +262,7 @@ def _overrides(ctx, rng, binary, ex):
     result folders of a line byte-identical"""
     keys = list(B.OVERRIDES)
     valid_sweep = [k for k in B.SWEEP if k not in B.SWEEP_NOT_VALID]
-    sweep = valid_sweep if ctx.thorough else rng.sample(valid_sweep, 60)
+    sweep = valid_sweep if ctx.thorough else rng.sample(valid_sweep, 48)
     pool = dict(B.OVERRIDES); pool.update(B.SWEEP)
     reps = 12 if ctx.thorough else 8
     runs = []
@@ -275,6 +275,39 @@ def _overrides(ctx, rng, binary, ex):
     _cache["sweep_info"] = {"lines_in_sweep": len(B.SWEEP), "valid": len(valid_sweep), "run_this_time": len(sweep), "evaluations_per_line": 4,
                             "not_valid_for_the_project_files": len(B.SWEEP_NOT_VALID)}
     return runs, pool
+
+
+_MCL = "project=%s WeatherFolder=historical soilId=075 fcode=109_120 Altitude=73 Latitude=52.6732 poligonID=29872 EndDate=12311981 plotNr=%s%s"
+MISSING_CONF = {"daily": ("dailyout_conf.yml", ""), "yearly": ("yearlyout_conf.yml", ""), "crop": ("cropout_conf.yml", ""),
+                "management": ("managementout_conf.yml", " ManagementEvents=1")}
+
+
+def _missing_conf(ctx, rng, binary, ex):
+    """project folders WITHOUT one of the output configuration files.  By design the first invocation writes the default file and
+    stops; whatever an invocation that finishes normally writes for a line must be the same bytes in every invocation
+    (first one included), in both line orders and in later sessions."""
+    def one(kind, fn, extra, first_order):
+            proj = "mc%s%d" % (kind[:1], first_order[0])
+            d = B._clone(ex, "ex1", proj)
+            p = os.path.join(d, fn)
+            if os.path.exists(p):
+                os.remove(p)
+            pool = {"L0": _MCL % (proj, "10001", extra), "L1": _MCL % (proj, "10002", extra)}
+            evals = {"L0": [], "L1": []}
+            sessions = []
+            for s, order in enumerate((first_order, (0, 1), (1, 0), first_order)):
+                keys = ["L%d" % i for i in order]
+                e = B.run_batch(binary, ex, "mc_%s_%d" % (proj, s), keys, pool, 1 if s < 3 else 2, 4)
+                sessions.append((keys, e.rc, e.count, (e.stderr or "")[-200:]))
+                if not e.died() and e.count == 0:
+                    for i, k in enumerate(keys):
+                        evals[k].append((s, B.folder_digest(os.path.join(e.root, "l%d" % i))))
+                shutil.rmtree(e.root, ignore_errors=True)
+            return {"kind": kind, "file": fn, "project": proj, "pool": pool, "evals": evals, "sessions": sessions,
+                    "generated": os.path.exists(p)}
+    jobs = [lambda kind=kind, fn=fn, extra=extra, fo=fo: one(kind, fn, extra, fo)
+            for kind, (fn, extra) in MISSING_CONF.items() for fo in ((0, 1), (1, 0))]
+    return B.parallel(jobs, 4)
 
 
 def _fout(ctx):
@@ -311,7 +344,7 @@ def _run(ctx):
         shutil.rmtree(os.path.join(ex, "solo_" + k), ignore_errors=True)
     _cache.update(rounds=rounds, pool=pool, ex=ex, reuse=_reuse(ctx, rng, binary, ex), fout=_fout(ctx),
                   solos=solos, solodig=solodig, shared=_shared(ctx, rng, binary, ex),
-                  overrides=_overrides(ctx, rng, binary, ex),
+                  overrides=_overrides(ctx, rng, binary, ex), missing=_missing_conf(ctx, rng, binary, ex),
                   ik=B.run_interp_groups(binary, ex, rng, concs=(1, 3, 8, 16) if ctx.thorough else (1, 3)))
     return _cache
 
@@ -412,6 +445,7 @@ def correspond(ctx):
         for x in execs:
             if x.died():
                 c.mismatches.append({"kind": "execution", "tag": x.tag, "what": "process did not finish normally", "rc": x.rc, "stderr": x.stderr[-600:]})
+    c.cases += 4 * len(r["missing"]); c.nontrivial += len(r["missing"]); c.dist["missing_output_config_projects"] = len(r["missing"])
     for e, digs in r["overrides"][0]:
         c.cases += 1; c.nontrivial += 1
         if e.died():
@@ -501,6 +535,27 @@ def oracle(ctx, search):
                                   replay="cd <copy of /repo/examples> (+ weather/odd of lib/props/batchlib.py make_odd_weather); batch A = the single line `%s resultfolder=A/l0`; "
                                          "batch B = " % pool[k] + " || ".join("%s resultfolder=B/l%d" % (pool[x], j) for j, x in enumerate(r0.contents)) +
                                          " ; hermes2go -module batch -concurrent 1 -batch <file>; compare A/l0 with B/l%d" % i))
+    # project folders without an output configuration file
+    for mc in r["missing"]:
+        how = ("cd <copy of /repo/examples>; cp -r project/ex1 project/%s (files renamed to *_%s.*); rm project/%s/%s; batch lines: %s ; run "
+               "`hermes2go -module batch -concurrent 1 -batch <file>` several times (the first invocation may stop after generating the file: by design), "
+               "also with the two lines swapped; every invocation that finishes must leave the same bytes for a line" % (
+                   mc["project"], mc["project"], mc["project"], mc["file"], " || ".join("%s resultfolder=M/l%d" % (v, i) for i, v in enumerate(mc["pool"].values()))))
+        if not mc["generated"] or sum(len(v) for v in mc["evals"].values()) < 4:
+            fails.append(Fail(key="missing-output-config:%s:no-clean-run" % mc["kind"],
+                              what="a project without %s never reaches clean runs (file generated: %s)" % (mc["file"], mc["generated"]),
+                              sessions=mc["sessions"], replay=how))
+            continue
+        for k, ev in mc["evals"].items():
+            compared += len(ev)
+            for s, d in ev[1:]:
+                if d != ev[0][1]:
+                    diff = sorted(f for f in set(d) | set(ev[0][1]) if d.get(f) != ev[0][1].get(f))
+                    fails.append(Fail(key="missing-output-config:%s:%s" % (mc["kind"], diff[0][:1] if diff else "?"),
+                                      what="in a project without %s a line's result files depend on which invocation / which position it ran in "
+                                           "(in-memory default configuration vs the generated file)" % mc["file"],
+                                      line=mc["pool"][k], files=diff[:6], invocation_a=ev[0][0], invocation_b=s, sessions=mc["sessions"], replay=how))
+                    break
     # several interacting overrides on one line: every evaluation of the line gives the same files
     first = {}
     ovpool = r["overrides"][1]
